@@ -83,7 +83,12 @@ def describe(r):
         sig = C.sig_of(r)
         lon = sig[1] if len(sig) > 1 else "-"
         tmp = sig[2] if len(sig) > 2 else "-"
-        return f"-> {fl}{len(sig) + 1} {sig[0]} {lon} {tmp} :: " + " | ".join(show(c) for c in C.stored(r))
+        def show_coord(c):
+            try:
+                return show(c)
+            except TypeError:      # a stored coordinate that is not a scalar at all (e.g. a vector slipped into a coordinate slot)
+                return f"<<non-scalar coordinate: {type(c).__name__}>>"
+        return f"-> {fl}{len(sig) + 1} {sig[0]} {lon} {tmp} :: " + " | ".join(show_coord(c) for c in C.stored(r))
     if isinstance(r, (bool, numpy.bool_)):
         return "-> " + ("bTrue" if r else "bFalse")
     return "-> " + show(r)
